@@ -66,6 +66,8 @@ pub fn ecm(n: &BigInt, conf: ECMConfig) -> (BigInt, u64) {
     debug_assert!(!prime::is_prime(n));
 
     let mut rng = rand::thread_rng();
+    #[cfg(feature = "verif-hooks")]
+    let mut rng = crate::verif_hooks::shadow(rng);
 
     let mut count = 0u64;
     let parallel_count = (conf.b1 as f64).sqrt() as usize; // TODO: find better values
